@@ -37,6 +37,10 @@ CHECKS = {
             "Every included program over every 1-/2-/3-subset of an 8-mode universe in every order of first use with 0-2 parameters x every call-site pattern; every combination of 6 directory layouts x duplicate-include variants x 4 process working directories x 2 load-argument styles; nesting depth 1-3 with the inner subroutine also called directly before/after the outer one. Each is loaded through blackbird.load from real files and compared with the reference model's inlining. Complete for the stated menus.",
             "Trusted: reference model inlining (sorted(sub.modes)[k] -> call modes[k]). Register references inside included programs and positional arguments of include calls are not generated.",
             "DESIGN.md section 5 C07"),
+    "C12": ("model_checking", "explicit-state BFS over load/loads call histories on the real module state (fork-per-history), differential against fresh-interpreter outcomes",
+            "States are the canonical content of every module-level mutable object of blackbird.*; transitions are real load/loads calls of a 38-script menu built to collide on names (valid, templates, tdm, failing at every stage incl. inside includes, probes whose metadata/body mention leftover names). BFS to the fixpoint of the canonical state space plus all raw histories of length <=2 (thorough <=3); every transition's outcome must equal the script's outcome in a pristine interpreter; programs of consecutive loads must share no mutable object.",
+            "Each history starts from the import-time state via fork (no knowledge of the state's names needed). ANTLR caches treated as transparent (cold pristine vs warm histories agree).",
+            "DESIGN.md section 5 C12"),
     # id: (category, technique, text, note, design_ref)
     "C02": ("exploration", "bounded-exhaustive enumeration of script prefixes (BFS over item sequences) vs reference denotation",
             "Every item sequence over the statement menu up to the stated depth is rendered, loaded by the real parser/evaluator and compared with an independently written reference denotation; complete for the stated alphabet and depth, nothing beyond.",
